@@ -106,9 +106,15 @@ class ProxyCommand(ClosingContextManager):
 
                 r, w, x = select([self.process.stdout], [], [], select_timeout)
                 if r and r[0] == self.process.stdout:
-                    buffer += os.read(
+                    data = os.read(
                         self.process.stdout.fileno(), size - len(buffer)
                     )
+                    if not data:
+                        # EOF: the proxy command exited or closed its stdout.
+                        # Hand back what we have (b"" tells the caller the
+                        # stream has ended) instead of spinning on os.read.
+                        break
+                    buffer += data
             return buffer
         except socket.timeout:
             if buffer:
